@@ -144,8 +144,12 @@ pub fn run_all() -> (Vec<(String, String, serde_json::Value)>, u64) {
     let exe = std::env::current_exe().unwrap_or_else(|e| crate::evidence::machinery_failure(&format!("current_exe: {}", e)));
     let mut out = Vec::new();
     let mut n = 0u64;
-    for size in [12usize, 40, 1000, 100_000] {
+    for size in [12usize, 40, 1000, 100_000, 600_000] {
+        // the deepest size only for chains (a subprocess main thread has an 8 MiB stack)
         for shape in ["", "star-"] {
+            if size > 100_000 && !shape.is_empty() {
+                continue;
+            }
             for p in PROBES {
                 let what = format!("{}{}", shape, p);
                 n += 1;
